@@ -34,7 +34,8 @@ impl SNode {
             ListenConfig::Ipv4 { ip, port } => SocketAddr::new((*ip).into(), *port),
             ListenConfig::Ipv6 { ip, port } => SocketAddr::new((*ip).into(), *port),
             ListenConfig::DualStack { ipv4, ipv4_port, .. } => SocketAddr::new((*ipv4).into(), *ipv4_port),
-            ListenConfig::FromSockets { .. } => unreachable!(),
+            // caller-supplied sockets: the record must come with the spec
+            ListenConfig::FromSockets { .. } => SocketAddr::new(std::net::Ipv4Addr::LOCALHOST.into(), 0),
         };
         let enr = spec.enr.unwrap_or_else(|| util::enr4(&key, 1, addr));
         let mut b = ConfigBuilder::new(spec.listen);
